@@ -20,6 +20,7 @@ def _norm(s: str) -> str:
 
 
 def run(ctx):
+    generic.value_slot_naming(ctx)
     R = ctx.report
     S = ctx.schema
     reg = ctx.reference("registry.json")
